@@ -599,7 +599,7 @@ func (c Constant) String() string {
 		}
 		var s strings.Builder
 		s.WriteRune('[')
-		s.WriteString((*c.fst).String())
+		writeFirstElem(&s, (*c.fst).String())
 		c = *c.snd
 		for !c.IsListNil() {
 			s.WriteString(", ")
@@ -614,7 +614,7 @@ func (c Constant) String() string {
 		}
 		var s strings.Builder
 		s.WriteRune('[')
-		s.WriteString((*c.fst.fst).String())
+		writeFirstElem(&s, (*c.fst.fst).String())
 		s.WriteString(" : ")
 		s.WriteString((*c.fst.snd).String())
 		c = *c.snd
@@ -651,6 +651,16 @@ func (c Constant) String() string {
 	default:
 		return "?" // cannot happen
 	}
+}
+
+// writeFirstElem writes the first element after an opening bracket. A leading
+// minus sign is separated by a space because "[-" is a token of its own
+// (the box-minus temporal operator).
+func writeFirstElem(s *strings.Builder, elem string) {
+	if strings.HasPrefix(elem, "-") {
+		s.WriteRune(' ')
+	}
+	s.WriteString(elem)
 }
 
 // DisplayString returns a string representation of the constant without escaping Unicode characters.
